@@ -45,6 +45,18 @@ func newTextprotoReader(r *bufio.Reader, ds dump.Dumpers) *textprotoReader {
 	if ds.ShouldDump() {
 		t.readLine = func() (line []byte, isPrefix bool, err error) {
 			line, err = t.R.ReadSlice('\n')
+			if err == bufio.ErrBufferFull {
+				// Same as bufio.Reader.ReadLine: the line does not fit in the buffer.
+				// Report the fragment with isPrefix set; a trailing '\r' is put back
+				// so that a "\r\n" straddling the buffer is still recognized.
+				if len(line) > 0 && line[len(line)-1] == '\r' {
+					if t.R.UnreadByte() == nil {
+						line = line[:len(line)-1]
+					}
+				}
+				ds.DumpResponseHeader(line)
+				return line, true, nil
+			}
 			if len(line) == 0 {
 				if err != nil {
 					line = nil
